@@ -36,7 +36,8 @@ Proof. intros r. destruct (ar_err r); [right; discriminate|left; reflexivity]. Q
 Theorem search_full_consistent : forall orcs expr p w n,
   eval expr = Ok n -> 1 <= n -> Z.of_N (bitlen n) < 2 ^ 64 -> 1 <= p ->
   (forall rs, ens_model orcs n = Ok rs -> Forall fits_slice rs) ->
-  (exists rs o, ens_model orcs n = Ok rs /\ search_full orcs expr p w = Ok o /\ consistent_report w n rs o) \/
+  (exists rs o, ens_model orcs n = Ok rs /\ search_full orcs expr p w = Ok o /\ consistent_report w n rs o /\
+                Forall (good_ares n) rs /\ Forall fits_slice rs) \/
   (search_full orcs expr p w = Err ($"alg") /\ exists j, orcs j <> None).
 Proof.
   intros orcs expr p w n He Hn Hb Hp Hfit.
@@ -63,7 +64,7 @@ Corollary search_full_stable : forall expr p w n,
   eval expr = Ok n -> 1 <= n -> Z.of_N (bitlen n) < 2 ^ 64 -> 1 <= p ->
   (forall rs, ens_model (fun _ => None) n = Ok rs -> Forall fits_slice rs) ->
   exists rs o, ens_model (fun _ => None) n = Ok rs /\ search_full (fun _ => None) expr p w = Ok o /\
-               consistent_report w n rs o.
+               consistent_report w n rs o /\ Forall (good_ares n) rs /\ Forall fits_slice rs.
 Proof.
   intros expr p w n He Hn Hb Hp Hfit.
   destruct (search_full_consistent (fun _ => None) expr p w n He Hn Hb Hp Hfit) as [H|[_ (j & Hj)]]; [exact H|].
